@@ -393,6 +393,43 @@ func ruleCondContext(c *Ctx) {
 		}
 		c.Floor("uses of contract groups in the runtime package", nuse, 1)
 	}
+	// what the VM is executing when it loads a script is that script's *caller*: wherever a loader passes the current
+	// script hash to loadScriptWithCallingHash it is the caller argument, never the hash of the loaded script
+	if ld := c.P.Func("pkg/vm", "VM", "loadScriptWithCallingHash"); ld == nil {
+		c.Lost("vm.load.caller-arg.anchor", "VM.loadScriptWithCallingHash not found")
+	} else {
+		callerIdx := -1
+		pi := 0
+		for _, fl := range ld.Decl.Type.Params.List {
+			for range fl.Names {
+				if namedTypeIs(ld.Pkg.TypesInfo.TypeOf(fl.Type), "pkg/util", "Uint160") && callerIdx < 0 {
+					callerIdx = pi // the first Uint160 parameter is the calling hash, the second the script's own hash
+				}
+				pi++
+			}
+		}
+		nsite := 0
+		for _, fd := range c.P.AllFuncDecls() {
+			if pkgRel(fd.Pkg.Types) != "pkg/vm" || fd.Decl.Body == nil {
+				continue
+			}
+			f := c.P.NewFuncCFG(fd)
+			for _, s := range f.CallSites("pkg/vm.(*VM).loadScriptWithCallingHash") {
+				for i, a := range s.call.Args {
+					if cl, ok := ast.Unparen(a).(*ast.CallExpr); ok && f.calleeSym(cl) == "pkg/vm.(*VM).GetCurrentScriptHash" {
+						nsite++
+						key := FuncKey(fd.Obj) + ".current-is-caller"
+						if i == callerIdx {
+							c.OK(key, c.P.Pos(s.call.Pos()), "the executing script's hash is handed on as the calling hash of the loaded script")
+						} else {
+							c.Fail(key, c.P.Pos(s.call.Pos()), fmt.Sprintf("%s hands the executing script's hash to loadScriptWithCallingHash as argument %d, not as the calling hash (argument %d): the loaded script runs under its loader's identity, so scope and rule checks see the wrong current and calling contracts", FuncKey(fd.Obj), i, callerIdx))
+						}
+					}
+				}
+			}
+		}
+		c.Floor("loaders passing the current script hash", nsite, 2)
+	}
 	// entry relation: a context's calling context is linked whenever there is a parent context
 	runGates(c, []GateSpec{{
 		ID: "vm.load.calling-context", Fn: [3]string{"pkg/vm", "VM", "loadScriptWithCallingHash"}, Target: "write:pkg/vm#istack",
